@@ -183,7 +183,7 @@ func TestC04WaitingPull(t *testing.T) {
 		// the shared counters of TestC04 / TestC04Concurrent scale with the case
 		// count of the property; this part is real time, so it takes one case in 30
 		// (thorough: one in 10)
-		if rapid.IntRange(0, pick(29, 9)).Draw(rt, "sample") != 0 {
+		if !oneIn(rt, pick(20, 6)) {
 			return
 		}
 		rule, detail := runC04w(s, cs)
